@@ -258,11 +258,15 @@ func c08Run(c *fw.Ctx, i int) {
 	case "independent":
 		a := c07Tree(r, r.Range(3, 20))
 		b := c07Tree(r, r.Range(3, 20))
-		for b.Tag != a.Tag {
+		// mostly the same kind of root; any two nodes can be compared though
+		for b.Tag != a.Tag && i%16 != 0 {
 			b = c07Tree(r, r.Range(3, 20))
 		}
 		if r.Bool() { // share some subtrees so that two-sided entries exist
 			for _, k := range a.Kids {
+				if c07Contextual[k.Tag] && b.Tag != a.Tag {
+					continue // role lines only exist inside a family
+				}
 				if r.Bool() {
 					b.Kids = append(b.Kids, cloneSpec(k))
 				}
